@@ -23,7 +23,8 @@ Theorem c46_submit_needs_only_post_start_outputs : forall c tr1 tr2 t sn sf,
     find_task (pool s1) t = Some p /\ find_inst (c_insts c) t = Some i /\
     valid_id c t /\ p_status p = Preparing /\
     (p_manual p = true \/
-     forall e, In e (i_pre i) -> bx_holds (fun k => In (EOutput (fst k) (snd k)) tr1) e).
+     forall e, In e (i_pre i) ->
+       bx_holds (fun k => emitted tr1 k \/ In k (p_forced p)) e).
 Proof. exact submit_only_when_satisfied. Qed.
 
 (* Start tasks (--start-task) are not modelled: partial. *)
